@@ -349,7 +349,10 @@ def dupSeq : List Int → Bool
 def c13 (h : H) : List String :=
   (List.range 2).flatMap fun ep =>
     snPairs (snwr h ep) ++
-    (if dupSeq (((writes h ep).filter fun (_, f) => isCallKind f.kind).map fun (_, f) => f.seq)
+    -- every call frame handed to the connection, also one whose Write then failed
+    (if dupSeq ((snwr h ep).filterMap fun e => match e with
+          | .wr _ f => if isCallKind f.kind then some f.seq else none
+          | _ => none)
      then ["C13:seqno-reused"] else [])
 
 /-! ### C20 — one record per RPC, under its tag, with its size -/
